@@ -185,7 +185,8 @@ func Run(outDir string, seed int64, tier string) error {
 			part("keystore-faults", true, func() error { return w.faultPart(tmp) })
 			part("dkg", false, func() error { return w.dkgPart(tmp, tier == "thorough" || id == crypto.DefaultSchemeID) })
 			pw.Wait()
-			w.cap.add("log/debug", w.sink.Bytes())
+			w.cap.add("log/debug-json", w.sink.Bytes())
+			w.cap.add("log/debug-console", w.sinkC.Bytes())
 		}(i, id)
 	}
 	wg.Wait()
@@ -261,17 +262,21 @@ func Run(outDir string, seed int64, tier string) error {
 	return rep.Write(outDir)
 }
 
+// excerpt locates the hit: the beginning of the line it is on (for a log line: level, time, caller
+// file:line and message) and the text just before the secret, never the secret itself.
 func excerpt(b []byte, s secret) string {
 	for _, f := range s.forms {
 		if i := strings.Index(string(b), string(f.b)); i >= 0 {
-			lo, hi := i-60, i+20
-			if lo < 0 {
-				lo = 0
+			ls := strings.LastIndex(string(b[:i]), "\n") + 1
+			le := ls + 260
+			if le > i {
+				le = i
 			}
-			if hi > len(b) {
-				hi = len(b)
+			lo := i - 60
+			if lo < ls {
+				lo = ls
 			}
-			return fmt.Sprintf("...%q[%s: %d bytes elided]...", string(b[lo:i]), f.name, len(f.b))
+			return fmt.Sprintf("line starts %q ... %q[%s: %d bytes elided]", string(b[ls:le]), string(b[lo:i]), f.name, len(f.b))
 		}
 	}
 	return ""
